@@ -67,7 +67,16 @@ func NewWorld() *World {
 
 func (w *World) Write(core int) {
 	w.Seq++
-	_ = w.Cores[core].Write(zapcore.Entry{Level: zapcore.InfoLevel, Message: strconv.Itoa(w.Seq), Time: stamp(w.Clock, w.Seq)}, nil)
+	// every third entry carries no fields, the others one or two fields naming the entry (a reused ring slot must
+	// not keep anything of the entry it held before)
+	var fields []zapcore.Field
+	switch w.Seq % 3 {
+	case 1:
+		fields = []zapcore.Field{zap.Int("seq", w.Seq)}
+	case 2:
+		fields = []zapcore.Field{zap.Int("seq", w.Seq), zap.String("tag", "t"+strconv.Itoa(w.Seq))}
+	}
+	_ = w.Cores[core].Write(zapcore.Entry{Level: zapcore.InfoLevel, Message: strconv.Itoa(w.Seq), Time: stamp(w.Clock, w.Seq)}, fields)
 	w.All = append(w.All, w.Seq)
 }
 
@@ -105,6 +114,24 @@ func Logs(ml *logging.MemLogger) []string {
 
 // Check: GetLogs == newest-first last min(total, capacity) entries.
 func (w *World) Check() string {
+	for _, l := range w.ML.GetLogs() {
+		if l == nil {
+			continue
+		}
+		seq, err := strconv.Atoi(l.Entry.Message)
+		if err != nil {
+			continue
+		}
+		ok := len(l.Context) == seq%3
+		for _, f := range l.Context {
+			if (f.Key == "seq" && int(f.Integer) != seq) || (f.Key == "tag" && f.String != "t"+strconv.Itoa(seq)) || (f.Key != "seq" && f.Key != "tag") {
+				ok = false
+			}
+		}
+		if !ok {
+			return fmt.Sprintf("entry %d is returned with the fields %v; it was written with %d field(s) naming entry %d", seq, l.Context, seq%3, seq)
+		}
+	}
 	got := Logs(w.ML)
 	n := len(w.All)
 	if n > logging.BufferSize {
